@@ -170,10 +170,14 @@ func addScrubFieldsToSelectionSet(ctx *PlanningContext, selectionSet ast.Selecti
 func addSelectionSetToSanitizedResult(s ast.SelectionSet, ss ...ast.Selection) ast.SelectionSet {
 	ss = lo.Filter(ss, func(sel ast.Selection, i int) bool {
 		f, ok := sel.(*ast.Field)
-		if ok && selectionSetHasFieldNamed(s, f.Alias) {
-			return false
+		if !ok {
+			return true
 		}
-		return true
+		// the same response key is already there
+		return !lo.ContainsBy(s, func(existing ast.Selection) bool {
+			ef, ok := existing.(*ast.Field)
+			return ok && ef.Alias == f.Alias
+		})
 
 	})
 	return append(s, ss...)
